@@ -88,3 +88,29 @@ func TestC10LostReplies(t *testing.T) {
 		Rule: "both upstream modes x a raw forward / an extension call x the underlying agent closing the connection instead of answering, cutting its reply short inside the frame, or declaring an oversize reply (12 histories). Oracle: the shim reference model - a reply that never arrived completely comes back as an error, never as a shorter reply; nothing crashes",
 		Exec: exec}, cases)
 }
+
+// TestC10HeldTwice: one certificate held both by the underlying agent (with its key) and as in-memory hardware
+// certificate - the class the random histories reach through their focus certificate - as a fixed grid.
+func TestC10HeldTwice(t *testing.T) {
+	var cases []vh.ShimCase
+	for _, noUp := range []bool{false, true} {
+		for _, kid := range []string{"text", "ysshca1"} {
+			for _, order := range []string{"upstream-first", "memory-first"} {
+				c := vh.ShimCase{NoUpstream: noUp, Certs: []vh.CertDef{{Key: "p256b", KeyIDClass: kid, Validity: "current", Serial: 1000}},
+					Initial: []vh.Op{{Kind: "oobadd", Key: "p256b", Cert: -1, Comment: "token"}}}
+				up, mem := vh.Op{Kind: "addcert", Cert: 0, Comment: "up"}, vh.Op{Kind: "addhard", Cert: 0, Comment: "hw"}
+				if order == "upstream-first" {
+					c.Ops = append(c.Ops, up, mem)
+				} else {
+					c.Ops = append(c.Ops, mem, up)
+				}
+				c.Ops = append(c.Ops, vh.Op{Kind: "list", Cert: -1}, vh.Op{Kind: "sign", Cert: 0, Data: []byte("held twice")}, vh.Op{Kind: "remove", Cert: 0}, vh.Op{Kind: "list", Cert: -1},
+					vh.Op{Kind: "signers", Cert: -1}, vh.Op{Kind: "sign", Cert: 0, Data: []byte("after removal")}, vh.Op{Kind: "addhard", Cert: 0, Comment: "hw2"}, vh.Op{Kind: "list", Cert: -1})
+				cases = append(cases, c)
+			}
+		}
+	}
+	vh.Enumerate(t, vh.Spec[vh.ShimCase]{Property: "C10", Name: "TestC10HeldTwice", Exhaustive: true,
+		Rule: "both upstream modes x {free-text, YSSHCA} KeyID x {handed to the underlying agent first, registered in memory first}: one certificate held twice; list, sign, remove naming the certificate, list, signers, sign, register again, list (8 histories). Oracle: the shim reference model (removal takes the certificate away from both places; afterwards it is neither listed nor usable until it is registered again)",
+		Exec: exec}, cases)
+}
